@@ -9,7 +9,8 @@ Proved (all inputs): the construction laws that fix the non-obvious content of a
   * `synthOneof_agrees`  Go's and protoc's synthetic names coincide when no nested type, enum,
                          enum value or extension of the message has a name the loop could produce
                          (a name starting with `_` or `X`); `synthOneof_differs` is the witness
-                         that they do differ otherwise (then protoc rejects the file: C01);
+                         that they do differ otherwise (then protoc rejects the file — the divergence
+                         the project documents as intentional, exempted in C01);
   * `label_filled`       every field leaves the parser with a label;
   * `oneofIndex_valid`   every `oneof_index` (declared or synthetic) points at an existing oneof;
   * `typeName_qualified` a linked field's `type_name` is `"." ++` the full name that scoped
@@ -252,8 +253,8 @@ theorem typeName_qualified (env : Env) (root : Nat) (scope : String) (f : FieldD
 /-! ### the statement that is not proved in Lean -/
 
 /-- C02 at full strength on the modelled constructs: whenever the compiler and the reference both
-    accept, their descriptors have the same projection. Not proved (it needs the C01 pipeline
-    argument for the synthetic-oneof case: when the two name sets differ the reference rejects);
+    accept, their descriptors have the same projection (the reference names synthetic oneofs as
+    the Go code does: documented divergence, see C01). Not proved in Lean;
     the oracle of the `link` engine evaluates exactly this statement on every generated
     workspace (`descriptor-differs-from-reference`). -/
 def C02_full : Prop :=
